@@ -209,6 +209,25 @@ pub fn gen_inputs(tier: &str, seed: u64, widen: bool) -> (Vec<(String, bool)>, u
             made += 1;
         }
     }
+    // 4c. repetition: one small (mostly erroneous) item repeated many times in one input — state that
+    // leaks per error (counters, recovery stacks) only shows after hundreds of errors (seeded change
+    // C23_2: an expression-depth counter leaked by every missing-expression error, hang after 255)
+    for item in [
+        "k :: 1 + ;\n", "a :: ;\n", "x :: (1;\n", "f :: () { 1 + };\n", "s :: .{ a = };\n", "b :: 1 +* 2;\n", "c :: i32.(;\n",
+        "d :: [;\n", "e :: if { };\n", "g :: x.;\n", "h :: #;\n", "i :: `;\n", "j :: 1 2;\n", ") ", "} ", "] ", "( ", "{ ", "+ ",
+        "ok :: 1;\n", "m :: () { x := 1; };\n",
+    ] {
+        for n in [64usize, 300, 1100] {
+            if n == 1100 && !(tier == "thorough" || widen) && item.len() > 8 {
+                continue;
+            }
+            texts.push(item.repeat(n));
+            // ... followed by something valid
+            texts.push(format!("{}main :: () {{ }}\n", item.repeat(n)));
+            // ... and inside a function body
+            texts.push(format!("f :: () {{\n{}}}\n", item.repeat(n)));
+        }
+    }
     // 5. random unicode / bytes
     for _ in 0..(n_soup / 10) {
         let n = rng.below(40);
